@@ -19,7 +19,7 @@ from .gen import parse_shape
 
 class RefMethod:
     __slots__ = ("id", "params", "prio", "reg", "body", "types", "pos", "kw", "req_pos", "max_pos",
-                 "req_kw", "sigkey", "is_method", "env")
+                 "req_kw", "sigkey", "is_method", "env", "kworder")
 
     def __init__(self, mspec, reg):
         self.id = mspec["id"]
@@ -36,6 +36,7 @@ class RefMethod:
         self.req_pos = sum(1 for p in self.pos if not p[2])
         self.max_pos = len(self.pos)
         self.req_kw = {nm for nm, p in self.kw.items() if not p[2]}
+        self.kworder = tuple(self.kw)  # declaration order of the keyword-only parameters
         # "identical signature": same declared types in the same slots, same arity range,
         # same required keywords, same priority (the statement's notion, which is also the
         # library's modulo return annotations, never used here)
@@ -101,6 +102,13 @@ class RefOvld:
             if not self.sem.leq(a.type_kw(k), b.type_kw(k)):
                 return False
         return True
+
+    def kw_order_twins(self, args, kwargs):
+        """Two applicable methods that differ ONLY in the declaration order of their keyword-only parameters:
+        whether that is an "identical signature" (the later one replaces the earlier) or two signatures that
+        are the same in every compared type (a tie) is not something the statements settle."""
+        app = [m for m in self.methods if self.applicable(m, args, kwargs)]
+        return any(a.sigkey == b.sigkey and a.kworder != b.kworder for i, a in enumerate(app) for b in app[i + 1:])
 
     # R3
     def decide(self, args, kwargs, excluded=()):
